@@ -84,6 +84,18 @@ Theorem C18_accepted_well_typed_fix :
 Proof. exact text_accepted_ok_fix. Qed.
 Print Assumptions C18_accepted_well_typed_fix.
 
+(** the same two statements for [Fix2] ([Fix] + patches/0009: uext/sext of an array is an error whatever the amount) *)
+Theorem C18_no_crash_fix2 :
+  forall text, supported text = true -> forall dbg k, parse_text_v Fix2 dbg text <> PPanic k.
+Proof. exact text_no_crash_fix2. Qed.
+Print Assumptions C18_no_crash_fix2.
+
+Theorem C18_accepted_well_typed_fix2 :
+  forall text dbg sy, supported text = true -> parse_text_v Fix2 dbg text = POk sy ->
+    sys_ok sy = true /\ sys_closed sy.
+Proof. exact text_accepted_ok_fix2. Qed.
+Print Assumptions C18_accepted_well_typed_fix2.
+
 (** Non-vacuity: a file with an array state initialised from a bit-vector, negated operands, a
     slice, an extension, a 129-bit decimal constant and a renamed state is outside every known
     class, is accepted in both profiles, and the accepted system satisfies the full [sys_ok]. *)
